@@ -628,3 +628,194 @@ contract(F, 'TableValidator._valid_type', variant='hdf5', tier='A', props=['C15'
 contract(F, 'TableValidator._valid_creation_date', tier='A', props=['C15'],
     types={'self': 'Obj:TableValidator', 'table': 'H5'}, returns='Str',
     ensures=[], internal=["ccount('TableValidator._valid_date') == 1"], raises=ANY_EXC, modifies=[])
+
+
+# ---- the HDF5 half, datasets: _valid_hdf5_axis --------------------------------------------------------------------
+# A dataset is named by its path; paths built with '%'-formatting from a literal template are the canonical terms
+# h5fmt1(template, a) / h5fmt2(template, a, b), so that code and contract name the same dataset.  What the file holds at
+# a path is given by uninterpreted functions of (file, path): presence, length, dtype kind, text elements, integer elements.
+ASSUMED['h5-datasets'] = (
+    'h5py: table.get(path, None) is None or the dataset at that path; len(ds) >= 0; ds.dtype.kind is a single letter (so '
+    '`kind in "OSU"` means kind is one of O, S, U); ds[:] is the array of its elements - read as text for a path ending in '
+    '/ids, as integers otherwise (the code inspects dtype.kind before it uses them as such); ndarray.min() / max() of a '
+    'non-empty integer array is an element that bounds all others; set(list) has as many elements as the list exactly when '
+    'no element repeats')
+h5_has = z3.Function('h5_has', I, Str, B)
+h5_len = z3.Function('h5_len', I, Str, I)
+h5_kind = z3.Function('h5_kind', I, Str, Str)
+h5_text = z3.Function('h5_text', I, Str, z3.ArraySort(I, Str))
+h5_ints = z3.Function('h5_ints', I, Str, z3.ArraySort(I, I))
+h5fmt1 = z3.Function('h5fmt1', Str, Str, Str)
+h5fmt2 = z3.Function('h5fmt2', Str, Str, Str, Str)
+
+
+def _h5_path(v):
+    """canonical path term of a string value, and its literal template (None when it is not a formatted string)"""
+    tpl = getattr(v, 'fmt_template', None)
+    if tpl is None:
+        return v.term, smt.lit_text(z3.simplify(v.term))
+    a = getattr(v, 'fmt_args')
+    if a.kind == 'str':
+        return h5fmt1(smt.str_lit(tpl), a.term), tpl
+    if a.kind == 'tuple' and len(a.items) == 2 and all(x.kind == 'str' for x in a.items):
+        return h5fmt2(smt.str_lit(tpl), a.items[0].term, a.items[1].term), tpl
+    raise EngineError('HDF5 path built from %s' % a.kind)
+
+
+class VKind(SV):
+    """dtype.kind: a one-letter string"""
+    kind = 'str'
+
+    def __init__(self, term):
+        self.term = term
+
+    def sv_member_of(self, eng, st, cont):
+        txt = smt.lit_text(z3.simplify(cont.term)) if cont.kind == 'str' else None
+        if txt is None:
+            return None
+        return z3.Or([self.term == smt.str_lit(c) for c in txt] or [z3.BoolVal(False)])
+
+
+class VH5Dtype(SV):
+    kind = 'h5dtype'
+
+    def __init__(self, ds):
+        self.ds = ds
+
+    def sv_getattr(self, eng, st, attr):
+        if attr == 'kind':
+            return VKind(h5_kind(self.ds.tid, self.ds.path))
+        raise EngineError('dtype attribute %s' % attr)
+
+
+class VH5DS(SV):
+    kind = 'h5ds'
+
+    def __init__(self, tid, path, tpl):
+        self.tid, self.path, self.tpl = tid, path, tpl
+
+    def sv_len(self, eng, st):
+        return VInt(h5_len(self.tid, self.path))
+
+    def sv_getattr(self, eng, st, attr):
+        if attr == 'dtype':
+            return VH5Dtype(self)
+        raise EngineError('dataset attribute %s' % attr)
+
+    def sv_slice(self, eng, st, lo, hi, node, reverse):
+        if lo is None and hi is None and not reverse:
+            st = st.copy()
+            if self.tpl is not None and self.tpl.endswith('/ids'):
+                return [Result(st, st.alloc(Arr('str', h5_text(self.tid, self.path), h5_len(self.tid, self.path), 'ndarray')))]
+            return [Result(st, st.alloc(Arr('int', h5_ints(self.tid, self.path), h5_len(self.tid, self.path), 'ndarray')))]
+        raise EngineError('%s:%d: dataset index other than [:]' % (eng.rel, node.lineno))
+
+
+def _vw_make_input_h5ds(self, eng, st, name, ty):
+    v = _prev_make_input_h5ds(self, eng, st, name, ty)
+    if ty == 'H5':
+        n = st.node(v)
+        st.setnode(v, n.replace(tid=VInt(fresh(name + '_file', I))))
+    return v
+
+
+_prev_make_input_h5ds = ValidatorWorld.make_input
+ValidatorWorld.make_input = _vw_make_input_h5ds
+
+
+def _vw_obj_method_h5(self, eng, st, recv, n, name, args, kwargs, node, starv=None, dstar=None):
+    if n.cls == 'H5' and name == 'get' and len(args) == 2 and args[0].kind == 'str':
+        self.used.add('h5-datasets')
+        tid = n.fields['tid'].term
+        path, tpl = _h5_path(args[0])
+        st = st.copy()
+        st.assume(h5_len(tid, path) >= 0)
+        yes, no = eng.fork(st, h5_has(tid, path))
+        return [Result(s, VH5DS(tid, path, tpl)) for s in yes] + [Result(s, args[1]) for s in no]
+    return _prev_obj_method_h5(self, eng, st, recv, n, name, args, kwargs, node, starv, dstar)
+
+
+_prev_obj_method_h5 = ValidatorWorld.obj_method
+ValidatorWorld.obj_method = _vw_obj_method_h5
+
+
+def _vw_arr_method_h5(self, eng, st, recv, n, name, args, kwargs, node):
+    if name in ('min', 'max') and not args and not kwargs and n.elem == 'int':
+        out = []
+        yes, no = eng.fork(st, n.n > 0)
+        for s in no:
+            out.append(eng.exc(s, 'ValueError'))
+        for s in yes:
+            s = s.copy()
+            m, w, k = fresh(name, I), fresh('argm', I), fresh('k', I)
+            s.assume(0 <= w, w < n.n, n.a[w] == m,
+                     z3.ForAll([k], z3.Implies(z3.And(0 <= k, k < n.n), (n.a[k] <= m) if name == 'max' else (n.a[k] >= m)),
+                               patterns=[n.a[k]]))
+            out.append(Result(s, VInt(m)))
+        return out
+    return _prev_arr_method_h5(self, eng, st, recv, n, name, args, kwargs, node)
+
+
+_prev_arr_method_h5 = ValidatorWorld.arr_method
+ValidatorWorld.arr_method = _vw_arr_method_h5
+
+
+def _vw_spec_h5(self, eng, st, n, e, bound):
+    if n in ('h5has', 'h5len', 'h5kind', 'h5text', 'h5int'):
+        t = eng.sev(e.args[0], st, bound)
+        tid = st.node(t).fields['tid'].term
+        path, _ = _h5_path(eng.sev(e.args[1], st, bound))
+        if n == 'h5has':
+            return VBool(h5_has(tid, path))
+        if n == 'h5len':
+            return VInt(h5_len(tid, path))
+        if n == 'h5kind':
+            return VStr(h5_kind(tid, path))
+        k = to_int(eng.sev(e.args[2], st, bound))
+        return VStr(h5_text(tid, path)[k]) if n == 'h5text' else VInt(h5_ints(tid, path)[k])
+    return _prev_spec_h5(self, eng, st, n, e, bound)
+
+
+_prev_spec_h5 = ValidatorWorld.spec_call
+ValidatorWorld.spec_call = _vw_spec_h5
+
+_IDS = "'%s/ids' % axis"
+_OIDS = "'%s/ids' % other"
+_DATA = "'%s/matrix/data' % axis"
+_IND = "'%s/matrix/%s' % (axis, 'indices')"
+_PTR = "'%s/matrix/%s' % (axis, 'indptr')"
+_IND1 = "'%s/matrix/indices' % axis"
+
+
+def _kin(p, letters):
+    return '(' + ' or '.join("h5kind(table, %s) == '%s'" % (p, c) for c in letters) + ')'
+
+
+contract(F, 'TableValidator._valid_hdf5_axis', tier='A', props=['C15'],
+    types={'self': 'Obj:TableValidator', 'table': 'H5', 'axis': 'Str', 'other': 'Str'},
+    returns='Opt[Str]',
+    ensures=[
+        # no complaint only if the ids of the axis (when there are any) are text, none of them is empty and none occurs twice,
+        "implies(isnone(result) and h5has(table, %s) and h5len(table, %s) > 0, %s "
+        "        and all(len(h5text(table, %s, k)) > 0 for k in range(h5len(table, %s))) "
+        "        and all(implies(p < q, h5text(table, %s, p) != h5text(table, %s, q)) "
+        "                for p in range(h5len(table, %s)) for q in range(h5len(table, %s))))"
+        % (_IDS, _IDS, _kin(_IDS, 'OSU'), _IDS, _IDS, _IDS, _IDS, _IDS, _IDS),
+        # the stored values are numeric, indices and indptr are integers,
+        "implies(isnone(result) and h5has(table, %s), %s)" % (_DATA, _kin(_DATA, 'fiu')),
+        "implies(isnone(result) and h5has(table, %s), %s)" % (_IND, _kin(_IND, 'iu')),
+        "implies(isnone(result) and h5has(table, %s), %s)" % (_PTR, _kin(_PTR, 'iu')),
+        # and every stored index names an id of the other axis
+        "implies(isnone(result) and h5has(table, %s) and h5has(table, %s), "
+        "        all(0 <= h5int(table, %s, k) and h5int(table, %s, k) < h5len(table, %s) for k in range(h5len(table, %s))))"
+        % (_IND1, _OIDS, _IND1, _IND1, _OIDS, _IND1),
+    ],
+    raises=ANY_EXC, modifies=[])
+
+
+def _vw_has_method_h5(self, cls, name):
+    return (cls == 'H5' and name == 'get') or _prev_has_method_h5(self, cls, name)
+
+
+_prev_has_method_h5 = ValidatorWorld.has_method
+ValidatorWorld.has_method = _vw_has_method_h5
